@@ -9,7 +9,7 @@ RULE = ("seeded scenarios of 2-5 contenders x 1-2 locks (re-entrant nesting <= 3
         "close, kernel event) with the fault injected at that event. A run is non-trivial when "
         "at least one contender had to wait for a lock; distinct = distinct sequence of "
         "(actor, lock event) in activation order including the fault position.")
-BUDGET = {"quick": {"cases": 500, "wall_s": 100, "chunk": 2, "per_group": 30},
+BUDGET = {"quick": {"cases": 500, "wall_s": 240, "chunk": 2, "per_group": 30},
           "thorough": {"cases": 4000, "wall_s": 1500, "chunk": 5, "per_group": 400}}
 ASSUMPTIONS = ["a designated next owner (hand-off decided, not yet resumed) counts as holding"]
 
